@@ -453,4 +453,51 @@ theorem handle_packet_pre_eq_model (P : Params σ) (s : St σ) (fromClient : Boo
   · simp only [hv, decide_false, if_false, Bool.false_eq_true]
     cases hd : s.decInitial <;> simp [hd]
 
+/-! ### `set_initial_decryptor` -/
+
+def k_sik : List Nat := [115, 101, 114, 118, 101, 114, 95, 105, 110, 105, 116, 105, 97, 108, 95, 107, 101, 121]   -- server_initial_key
+def k_siv : List Nat := [115, 101, 114, 118, 101, 114, 95, 105, 110, 105, 116, 105, 97, 108, 95, 105, 118]        -- server_initial_iv
+def k_cik : List Nat := [99, 108, 105, 101, 110, 116, 95, 105, 110, 105, 116, 105, 97, 108, 95, 107, 101, 121]    -- client_initial_key
+def k_civ : List Nat := [99, 108, 105, 101, 110, 116, 95, 105, 110, 105, 116, 105, 97, 108, 95, 105, 118]         -- client_initial_iv
+
+/-- the dict `dev_initial_keys` returns, as far as `set_initial_decryptor` reads it -/
+def initDict (k : DirKeys × DirKeys) : List (List Nat × Bytes) :=
+  [(k_sik, k.1.key), (k_siv, k.1.iv), (k_cik, k.2.key), (k_civ, k.2.iv)]
+
+/-- `QuicDecryptor([server key, server iv, client key, client iv], cipher, early=False)` -/
+def mkDec (ks : List Bytes) (alg : Alg) (early : Bool) : Except Err Dec :=
+  match ks, early with
+  | [a, b, c, d], false => .ok { alg := alg, server := some ⟨a, b⟩, client := ⟨c, d⟩ }
+  | _, _ => .error .index
+
+/-- `set_initial_decryptor(dcid, False)`: no keys → `can_decrypt = False`; else the Initial decryptor (AES-GCM) from the four
+    entries, `self.keys` extended -/
+theorem set_initial_decryptor_eq_model (P : Params σ) (s : St σ) (dcid : Bytes) :
+    QS.set_initial_decryptor (fun d v _ => (P.devInitialKeys v d).map initDict) mkDec dcid false s
+      = .ok () (setInitialDecryptor P s dcid) := by
+  unfold QS.set_initial_decryptor setInitialDecryptor
+  dsimp only
+  cases P.devInitialKeys s.version dcid with
+  | none => rfl
+  | some k =>
+    obtain ⟨srv, cli⟩ := k
+    simp only [Option.map_some]
+    have g1 : tableGetE (initDict (srv, cli)) k_sik = .ok srv.key := by
+      simp [tableGetE, tableGet, initDict, k_sik, k_siv, k_cik, k_civ, List.find?]
+    have g2 : tableGetE (initDict (srv, cli)) k_siv = .ok srv.iv := by
+      simp [tableGetE, tableGet, initDict, k_sik, k_siv, k_cik, k_civ, List.find?]
+    have g3 : tableGetE (initDict (srv, cli)) k_cik = .ok cli.key := by
+      simp [tableGetE, tableGet, initDict, k_sik, k_siv, k_cik, k_civ, List.find?]
+    have g4 : tableGetE (initDict (srv, cli)) k_civ = .ok cli.iv := by
+      simp [tableGetE, tableGet, initDict, k_sik, k_siv, k_cik, k_civ, List.find?]
+    show tryE (tableGetE (initDict (srv, cli)) k_sik) _ _ = _
+    rw [g1]; simp only [tryE_ok]
+    show tryE (tableGetE (initDict (srv, cli)) k_siv) _ _ = _
+    rw [g2]; simp only [tryE_ok]
+    show tryE (tableGetE (initDict (srv, cli)) k_cik) _ _ = _
+    rw [g3]; simp only [tryE_ok]
+    show tryE (tableGetE (initDict (srv, cli)) k_civ) _ _ = _
+    rw [g4]; simp only [tryE_ok]
+    rfl
+
 end TLX.Props.Translated.QSess
